@@ -10,6 +10,7 @@ verus! {
 
 //@map HashMap => HMap
 //@map Box::pin => vx_box_pin
+//@map error_codes::SHUTDOWN => SHUTDOWN
 //@map pubsub::Socket => PubsubSocket
 //@map reqrep::Socket => ReqrepSocket
 //@map pubsub::Topic => PubsubTopic
@@ -129,6 +130,62 @@ impl TopicsGuard {
     #[verifier::external_body] pub fn get(&self, k: &TopicName) -> (r: Option<&TopicChannel>)
         ensures r is Some <==> self.view().dom().contains(*k), r is Some ==> *r->Some_0 == self.view()[*k] { unimplemented!() }
 }
+
+impl TopicsGuard {
+    // R18b support
+    #[verifier::external_body] pub fn keys_snapshot(&self) -> (r: Vec<TopicName>)
+        ensures forall|i: int, j: int| 0 <= i < j < r@.len() ==> r@[i] != r@[j],
+                forall|j: int| 0 <= j < r@.len() ==> self.view().dom().contains(#[trigger] r@[j]),
+                forall|k: TopicName| #[trigger] self.view().dom().contains(k) ==> 0 <= topic_key_at(r@, k) < r@.len() && r@[topic_key_at(r@, k)] == k
+    { unimplemented!() }
+    #[verifier::external_body] pub fn get_mut(&mut self, k: &TopicName) -> (r: Option<&mut TopicChannel>)
+        ensures
+            !old(self).view().dom().contains(*k) ==> r is None && final(self).view() == old(self).view(),
+            old(self).view().dom().contains(*k) ==> r is Some && *r->Some_0 == old(self).view()[*k]
+                && final(self).view() == old(self).view().insert(*k, *final(r->Some_0)),
+    { unimplemented!() }
+}
+pub uninterp spec fn topic_key_at(s: Seq<TopicName>, k: TopicName) -> int;
+// quinn::Endpoint, join_all
+#[verifier::external_body] pub struct Endpoint { _p: u8 }
+#[verifier::external_body] pub struct VarInt { _p: u8 }
+impl VarInt { #[verifier::external_body] pub fn from_u32(x: u32) -> (r: VarInt) { unimplemented!() } }
+impl Endpoint {
+    #[verifier::external_body] pub fn reject_new_connections(&self) { unimplemented!() }
+    #[verifier::external_body] pub fn close(&self, code: VarInt, reason: &[u8]) { unimplemented!() }
+    #[verifier::external_body] pub async fn wait_idle(&self) { unimplemented!() }
+}
+#[verifier::external_body] pub struct HandlesIterMut { _p: u8 }
+impl TopicHandlesGuard { #[verifier::external_body] pub fn iter_mut(&mut self) -> (r: HandlesIterMut) { unimplemented!() } }
+// futures::future::join_all over the topic tasks: completes when every router task has finished (waits for the routers)
+#[verifier::external_body] pub async fn join_all(h: HandlesIterMut) { unimplemented!() }
+pub open spec fn all_topics_closed(m: Map<TopicName, TopicChannel>) -> bool { forall|k: TopicName| #[trigger] m.dom().contains(k) ==> m[k].chan_closed() }
+
+//@type server/src/server.rs :: Server
+//@fn server/src/server.rs :: Server :: shutdown [props=C16]
+    ensures true,
+//@loop 1
+        invariant
+            __i <= __keys@.len(),
+            forall|a: int, b: int| 0 <= a < b < __keys@.len() ==> __keys@[a] != __keys@[b],
+            forall|j: int| 0 <= j < __keys@.len() ==> topics.view().dom().contains(#[trigger] __keys@[j]),
+            topics.view().dom() =~= v0.dom(),
+            forall|k: TopicName| #[trigger] v0.dom().contains(k) ==> 0 <= topic_key_at(__keys@, k) < __keys@.len() && __keys@[topic_key_at(__keys@, k)] == k,
+            forall|j: int| 0 <= j < __i ==> topics.view()[#[trigger] __keys@[j]].chan_closed(),
+        decreases __keys@.len() - __i
+//@hint before "let __keys = topics.keys_snapshot();"
+        let ghost v0 = topics.view();
+//@hint before "join_all("
+        proof {
+            assert forall|k: TopicName| #[trigger] topics.view().dom().contains(k) implies topics.view()[k].chan_closed() by {
+                let j = topic_key_at(__keys@, k);
+                assert(__keys@[j] == k);
+            }
+        }
+//@hint before "join_all("
+        // every topic's registration channel has been closed before the routers are waited for
+        proof { assert(all_topics_closed(topics.view())); }                                                          // [C16.shutdown_closes_every_topic_before_waiting]
+//@end
 
 // ---- server.rs ----
 //@fn server/src/server.rs :: - :: handle_stream [props=C07 C11 C17] [guards=ts]
